@@ -12,6 +12,7 @@ import (
 	"strconv"
 	"strings"
 	"time"
+	"unicode/utf8"
 
 	"google.golang.org/protobuf/encoding/protojson"
 	"google.golang.org/protobuf/proto"
@@ -232,6 +233,9 @@ func oracleParse(tag, text string) string {
 		}
 		msg = wrapperspb.Bool(v)
 	case "google.protobuf.StringValue":
+		if !utf8.ValidString(text) {
+			return "err"
+		}
 		msg = wrapperspb.String(text)
 	case "google.protobuf.BytesValue":
 		v, err := base64.StdEncoding.DecodeString(text)
@@ -243,6 +247,9 @@ func oracleParse(tag, text string) string {
 		}
 		msg = wrapperspb.Bytes(v)
 	case "google.protobuf.FieldMask":
+		if !utf8.ValidString(text) {
+			return "err"
+		}
 		msg = &fieldmaskpb.FieldMask{Paths: strings.Split(text, ",")}
 	default:
 		return "err"
